@@ -52,6 +52,9 @@ pub fn corpus() -> Vec<(String, Box<dyn Fn(&dyn QueryBuilder) -> (String, Values
         add!(format!("order-by-field#{k}"), s);
     }
     add!("many values", { let mut s = Query::select(); s.column(a("c")).from(a("t")).and_where(Expr::col(a("d")).is_in([1, 2, 3, 4, 5, 6, 7, 8, 9, 10, 11, 12, 13])); s });
+    add!("control characters", { let mut s = Query::select(); s.column(a("c")).from(a("t")).and_where(Expr::col(a("c")).eq("line\nbreak\ttab")).and_where(Expr::col(a("d")).eq("cr\rbs\u{8}")); s });
+    add!("values table", { let mut s = Query::select(); s.column(a("c")).from_values([(1, "it's"), (2, "back\\slash")], a("x")); s });
+    add!("values table bytes", { let mut s = Query::select(); s.column(a("c")).from_values([(1, vec![0xABu8, 0xCD])], a("x")); s });
     add!("insert rows", Query::insert().into_table(a("t")).columns([a("a"), a("b")]).values_panic([1.into(), "x".into()]).values_panic([2.into(), Value::String(None).into()]).to_owned());
     add!("insert select", Query::insert().into_table(a("t")).columns([a("x")]).select_from(sub()).unwrap().to_owned());
     add!("insert on conflict", Query::insert().into_table(a("t")).columns([a("a")]).values_panic([1.into()]).on_conflict(OnConflict::column(a("a")).value(a("a"), 5).to_owned()).to_owned());
